@@ -179,7 +179,9 @@ class GraphQLLocatedError(GraphQLResponseError):
             ),
             ("path", self.path if self.path is not None else None),
         )
-        return {k: v for k, v in kv if v}
+        # The message is the only entry the response format requires: keep
+        # it even when empty.
+        return {k: v for k, v in kv if v or k == "message"}
 
 
 class InvalidValue(GraphQLLocatedError, ValueError):
